@@ -54,7 +54,7 @@ const (
 	vpfSecondBadBytes
 	vpfWaitErr1
 	vpfMissingRoot // a fed root names no object: rev-list refuses it ("bad object") unless told to --ignore-missing
-	vpfDeadEarly // rev-list dies before it has read its input: the pipe takes faultPos more roots, then the feeder blocks
+	vpfDeadEarly   // rev-list dies before it has read its input: the pipe takes faultPos more roots, then the feeder blocks
 	vpfCount
 )
 
